@@ -22,6 +22,8 @@ def term_of(fn, e, view_info):
         return int(v)
     if isinstance(v, int):
         return v
+    if e.k == "const" and e.a is None and e.b:
+        return ("constparam", str(e.b))
     if e.k == "cast":
         return term_of(fn, e.a, view_info)
     if e.k == "call" and (e.a.path in LEN_CALLS or e.a.rpath in LEN_CALLS or e.a.name == "len" and len(e.a.args) == 1):
